@@ -193,6 +193,34 @@ pub struct CacheStats {
     pub witnesses_in_tolerance_band: u64,
 }
 
+/// The reported path polytope of a node as the library builds it (f64 rows, label 0 negated).
+pub fn path_polytope_f64(tree: &AffTree<2>, idx: usize) -> Option<affinitree::linalg::affine::Polytope> {
+    use affinitree::linalg::affine::Polytope;
+    use ndarray::{Array1, Array2};
+    let path = tree.tree.path_to_node(idx).ok()?;
+    if path.is_empty() {
+        return None;
+    }
+    let dim = tree.in_dim();
+    let mut m = Array2::<f64>::zeros((path.len(), dim));
+    let mut b = Array1::<f64>::zeros(path.len());
+    for (i, (n, label)) in path.iter().enumerate() {
+        let node = tree.tree.tree_node(*n).ok()?;
+        if node.value.aff.bias.len() != 1 || node.value.aff.mat.ncols() != dim {
+            return None;
+        }
+        let f = if *label == 1 { 1.0 } else { -1.0 };
+        for j in 0..dim {
+            m[[i, j]] = node.value.aff.mat[[0, j]] * f;
+        }
+        b[i] = node.value.aff.bias[0] * f;
+    }
+    if m.iter().chain(b.iter()).any(|v| !v.is_finite()) {
+        return None;
+    }
+    Some(Polytope::from_mats(m, b))
+}
+
 /// Containment with the allowance the library's own f64 `contains` has:
 /// b - a.w >= -(1e-8 + 2^-50 (|b| + sum |a_j w_j|)).  Returns (inside, strictly_inside).
 pub fn contains_with_allowance(row: &Row, w: &[Q]) -> (bool, bool) {
@@ -275,6 +303,19 @@ pub fn check_caches(tree: &AffTree<2>, fat_box: Option<f64>) -> Result<CacheStat
                     }
                     if band {
                         st.witnesses_in_tolerance_band += 1;
+                    }
+                    // the documented tolerance is the one of the library's own `contains`: a cached
+                    // witness that `contains` rejects for its own path polytope is unsound by the
+                    // library's standard, whatever exact arithmetic says about rounding
+                    if !rows.is_empty() {
+                        if let Some(poly) = path_polytope_f64(tree, idx) {
+                            if !poly.contains(w) {
+                                return Err((
+                                    "witness_rejected_by_contains".into(),
+                                    format!("node {idx}: Polytope::contains rejects the cached witness {:?} for the node's own path polytope", w.to_vec()),
+                                ));
+                            }
+                        }
                     }
                 }
             }
